@@ -16,8 +16,9 @@ META = {
             "iterator state x {Next, Seek(t)}; 4 inputs x 6 time points x 3 sample types by seeded simulation; chunk level 2-3 inputs x 3 "
             "time points (4 in the thorough tier) exhaustively, 4x6 by simulation; set level 0-4 sets (5-6 thorough) over 3 label sets, "
             "limits 0-2. Iterator errors are out of scope (C54). Counter-reset hints and start timestamps are not compared. The series "
-            "limit and the concatenating merger are outside the property statement (drift only). Known findings KF-C19-1 (a sample at "
-            "math.MinInt64 is skipped by chainSampleIterator.Next) and KF-C19-2 (re-used iterator object, first call Seek(MinInt64)). Seek "
+            "limit and the concatenating merger are outside the property statement (drift only). The defects found with this check (KF-C19-1: a "
+            "sample at math.MinInt64 skipped by chainSampleIterator.Next; KF-C19-2: re-used iterator object, first call Seek(MinInt64)) are "
+            "repaired by commits 66c6d27753 / e70e80fdf9 and the MinInt64 concretisations are now checked like any other. Seek "
             "on an already exhausted iterator is treated as outside the chunkenc.Iterator contract.",
     "technique": "TLA+ reference + transcription (Merge.tla, Chain.tla, Compact.tla) model-checked by TLC; TLC-generated cases replayed into "
                  "storage merge code",
@@ -93,8 +94,7 @@ def run(ctx):
         "single-type chunks per input chunk series, no iterator errors",
         "bounded model (see META.note); larger alphabets only by seeded simulation",
         "value equality is bitwise for floats and structural (ignoring the counter-reset hint) for histograms",
-        "Compact.tla abstracts the vertical series merge by the reference merge that Chain.tla establishes for chainSampleIterator "
-        "(modulo KF-C19-1)",
+        "Compact.tla abstracts the vertical series merge by the reference merge that Chain.tla establishes for chainSampleIterator",
     ]
     return ctx.finish(rule="sample level: one behaviour per transition of the exhaustively explored iterator state graph (inputs x reachable "
                            "iterator state x {Next, Seek(t)}) + simulated walks; chunk and set level: one case per input configuration; each "
